@@ -398,6 +398,7 @@ func checkC04(w *World, r *Report) {
 	ruleFinalRender(w, r, "C04")
 	ruleCursorUp(w, r, "C04")
 	ruleFlushReturnsErrors(w, r, "C04")
+	ruleFillGuards(w, r, "C04")
 	ruleRowsFit(w, r, "C04")
 	fi := w.analyseFlush()
 	ruleFlushCount(w, r, "C04", fi)
